@@ -155,7 +155,7 @@ impl Property for C18 {
     }
     fn runs(&self, tier: Tier) -> u64 {
         match tier {
-            Tier::Quick => 1_500,
+            Tier::Quick => 5_000,
             Tier::Thorough => 1_500_000,
         }
     }
